@@ -31,6 +31,7 @@ typedef struct {
   int ntaxel;
   int ntask;
   int batch;               // taxels per task
+  int last_end;            // end_taxel of the last task
 } c02TacInfo;
 
 int c02_tac_is(c02TaskFunc f);
